@@ -34,6 +34,23 @@ type Sim struct {
 	// when a block was handed over as an orphan (orphans are only kept for a
 	// bounded simulated time; older ones may have been dropped)
 	orphanSince map[*MBlock]time.Time
+
+	// crash bookkeeping (memdb only): tip announcements and acknowledgements
+	// stamped with the number of completed database commits
+	announced []announce
+	ackCommit map[*MBlock]int
+	quiet     bool // sub-simulation: no event log lines, no signature tokens
+	// sub-simulation on a recovered node: blocks it already held at reopen
+	preKnown map[*MBlock]bool
+	stuck    *MBlock
+}
+
+// commits returns the number of completed database commits (memdb only).
+func (s *Sim) commits() int {
+	if ms, ok := s.n.store.(*memStore); ok && ms.DB != nil {
+		return ms.DB.Commits()
+	}
+	return 0
 }
 
 func (s *Sim) adjNow() int64 { return s.n.Time.AdjustedTime().Unix() }
@@ -89,8 +106,18 @@ func (s *Sim) Deliver(b *MBlock) {
 			res = "internal-error"
 		}
 	}
-	r.Event("deliver", "%v parent=%v class=%q mut=%q -> main=%v orphan=%v %s", b, b.Parent, b.Class, b.Mut, isMain, isOrph, res)
-	r.Sig("d:" + b.Class)
+	if !s.quiet {
+		r.Event("deliver", "%v parent=%v class=%q mut=%q -> main=%v orphan=%v %s", b, b.Parent, b.Class, b.Mut, isMain, isOrph, res)
+		r.Sig("d:" + b.Class)
+	}
+	if err == nil && !isOrph {
+		if s.ackCommit == nil {
+			s.ackCommit = map[*MBlock]int{}
+		}
+		if _, ok := s.ackCommit[b]; !ok {
+			s.ackCommit[b] = s.commits()
+		}
+	}
 	if err != nil && !isRule(err) {
 		r.Violate("C01", "no-internal-error", "", "ProcessBlock(%v) returned a non-rule error: %v", b, err)
 	}
@@ -247,7 +274,15 @@ func (s *Sim) CheckState(where string) {
 		if where == "invalidate" || where == "reconsider" {
 			key = "invalidate-no-fallback"
 		}
-		r.Violate("C02", "most-work-valid-chain", key, "active tip %v has work %v but fully valid accepted block %v has more work %v (%s)", tip, tip.Work, best, bestWork, where)
+		prop := "C02"
+		if s.preKnown != nil && s.preKnown[best] {
+			// recovered node: the better block was already stored and indexed
+			// before the crash but never connected
+			key = "crash-stored-block-not-activated"
+			prop = "C04"
+			s.stuck = best
+		}
+		r.Violate(prop, "most-work-valid-chain", key, "active tip %v has work %v but fully valid accepted block %v has more work %v (%s)", tip, tip.Work, best, bestWork, where)
 	}
 	// C02: no reorganisation without strictly more work
 	if s.prevTip != nil && tip != s.prevTip && !s.prevTip.IsAncestorOf(tip) {
@@ -372,7 +407,9 @@ func (s *Sim) Advance(d time.Duration) {
 			s.doubt[b] = true
 		}
 	}
-	s.r.Event("advance", "%v", d)
+	if !s.quiet {
+		s.r.Event("advance", "%v", d)
+	}
 }
 
 func fmtBlocks(bs []*MBlock) string {
